@@ -50,7 +50,7 @@
 From AV Require Import Base.Bytes Base.Outcome Hash.HashModel Tree.Heap Tree.Ops Tree.Script Tree.Serialize Tree.Inv.
 From AV Require Import Tree.Files Tree.FilesProofsProj Tree.FilesProofsFrame Tree.FilesProofsAdd Tree.FilesProofsRemove Tree.FilesProofsExact Tree.FilesProofsLast Tree.FilesProofsMove
   Tree.FilesProofsInv Tree.FilesProofsHist Tree.FilesProofsTop Tree.FilesProofsExact2 Tree.FilesProofsOwned Tree.FilesProofsText Tree.FilesProofsLoad Tree.FilesProofsOp2
-  Tree.FilesLoad Tree.FilesProofsMerge Tree.FilesProofsBridge Tree.FilesProofsLoad2 Tree.FilesProofsLoad3 Tree.FilesProofsLoad4 Tree.FilesProofsLoad5 Tree.FilesProofsOp2b Tree.FilesProofsDup Tree.FilesProofsDup2 Tree.FilesProofsDup3 Tree.FilesProofsNames Tree.FilesProofsNames2.
+  Tree.FilesLoad Tree.FilesProofsMerge Tree.FilesProofsBridge Tree.FilesProofsLoad2 Tree.FilesProofsLoad3 Tree.FilesProofsLoad4 Tree.FilesProofsLoad5 Tree.FilesProofsLoad6 Tree.FilesProofsOp2b Tree.FilesProofsDup Tree.FilesProofsDup2 Tree.FilesProofsDup3 Tree.FilesProofsNames Tree.FilesProofsNames2.
 From AV Require Tree.CopyProofsDefs Tree.InvLoad Tree.Load Tree.MergeSpec Tree.MergePure Tree.MergePureProofs Tree.LoadRefineBase Tree.LoadRefinePure Tree.LoadRefineMain Tree.LoadRefineTop.
 From AV Require Import Tree.Script2.
 From AV Require Tree.Index Tree.Copy Xml.Parser Xml.Serializer Xml.RoundTripFile.
@@ -490,6 +490,30 @@ Theorem C10_load_merge :
   (r = OK fid /\ w_files w' = w_files w ++ [fl] /\
    exists x', nth_opt (w_models w') (N.to_nat m) = Some x' /\ m_files x' = files ++ [fid] /\ FilesInvW w' x' /\ RootFull w' x').
 Proof. exact load_merge_inv. Qed.
+
+(* every model of a world with C03's Core is an abstracted tree, so the load theorem can be stated with the tree read
+   back from the heap (MergeSpec.abs_model) instead of a ModelTree hypothesis *)
+Theorem C10_model_is_tree :
+  forall (w : world), Core w -> forall (m : N) (x : model),
+  nth_opt (w_models w) (N.to_nat m) = Some x -> exists ta, LoadRefineTop.ModelTree w m ta (m_files x).
+Proof. exact modeltree_exists. Qed.
+
+Theorem C10_load_merge_abs :
+  forall (T : tables) (LATEST defref : N) (m : N) (filename : list N) (root : Parser.etree) (st : Parser.pstate)
+         (w : world) (ha : MergeSpec.htree) (x : model) (r : out N) (w' : world),
+  Core w -> Core w' -> m_files x <> [] ->
+  nth_opt (w_models w) (N.to_nat m) = Some x -> MergeSpec.abs_model w m = Some ha -> FilesInvW w x -> RootFull w x ->
+  let fid := N.of_nat (List.length (w_files w)) in
+  let fl := mkFile m filename (Parser.p_version st) (Parser.p_standalone st) in
+  let fver := LoadRefineMain.fver_files (w_files w ++ [fl]) in
+  (forall fuel, (MergePureProofs.hdepth ha < fuel)%nat ->
+     LoadRefinePure.Clean T LATEST defref fver fuel ha (fold_right set_add [] (m_files x)) (MergePure.htree_of_etree root) fid /\
+     exists ha', MergePure.pmerge T LATEST defref fver fuel ha (fold_right set_add [] (m_files x)) (MergePure.htree_of_etree root) fid = Val (OK ha')) ->
+  Load.load_parsed T LATEST defref m filename root st w = Val (r, w') ->
+  r = ER OverlappingDataError \/
+  (r = OK fid /\ w_files w' = w_files w ++ [fl] /\
+   exists x', nth_opt (w_models w') (N.to_nat m) = Some x' /\ m_files x' = m_files x ++ [fid] /\ FilesInvW w' x' /\ RootFull w' x').
+Proof. exact load_merge_inv_abs. Qed.
 
 (* the first file of a model *)
 Theorem C10_load_first :
